@@ -5,8 +5,18 @@
    (HeaderSubmissionLoop / DataSubmissionLoop -> submitToDA -> postSubmit -> pendingBase.setLastSubmittedHeight),
    DA-includer (DAIncluderLoop -> IsDAIncluded / SetRollkitHeightToDAHeight / incrementDAIncludedHeight).
    Everything between two actions of one activity is local computation.  Answers of the doubles (sequencer,
-   execution layer, DA layer) are part of the schedule.  Not modelled: reaper, retriever, P2P pollers, sync loop;
-   datastore errors; the pending-limit test; block contents beyond (id, predecessor id, has-transactions). *)
+   execution layer, DA layer) are part of the schedule.
+   The DATA watermark has TWO writers: the data submission loop (postSubmit) and block production
+   (publishBlockInternal's pending-limit test -> PendingData.numWaitingData steps over data without
+   transactions right above the watermark with setLastSubmittedDataHeight).  Both go through
+   pendingBase.setLastSubmittedHeight, which since the repair d1559c9 holds pendingBase.setMu around
+   load / compare-and-swap / SetMetadata: the mutex is part of the shared state ([mu]) and Lock / Unlock are
+   actions.  The write discipline BEFORE that repair (no mutex) is kept below as [step_old] / [run_old]; it does
+   not keep the invariant (Props/C13.v, C13_two_writers_unlocked_refuted).
+   Not modelled: reaper, retriever, P2P pollers, sync loop; datastore errors; the VALUE of the pending limit
+   (whether the limit test calls numWaitingData, and whether it then refuses to build a block, is the
+   environment's choice: every limit and every outcome of the read-only comparisons is covered); block contents
+   beyond (id, predecessor id, has-transactions). *)
 From Coq Require Import NArith List Bool.
 Import ListNotations.
 Open Scope N_scope.
@@ -27,6 +37,7 @@ Record shared := {
   sth : N;
   wmv : kind -> N;
   wmp : kind -> N;
+  mu : kind -> N;
   da : kind -> list (N * N);
   mk : kind -> list (N * N);
   di : N;
@@ -35,31 +46,35 @@ Record shared := {
 }.
 (* blk: pkg/store blocks by height (/h, /d, /c, /i in one batch);  ht: store height (/t);  sth: height of the
    state record (/s);  wmv / wmp: volatile (pendingBase.lastHeight) and persisted (/m/last-submitted-*-height)
-   submission watermarks;  da: what the DA layer has accepted, as (height, block id);  mk: the caches'
+   submission watermarks;  mu: pendingBase.setMu of that watermark (pending_base.go, since d1559c9): 0 = free,
+   1 = held by the submission loop of that kind, 2 = held by block production (numWaitingData; data only);
+   da: what the DA layer has accepted, as (height, block id);  mk: the caches'
    DA-included marks (cache.SetDAIncluded), as (height, block id);  di: Manager.daIncludedHeight;
    pdi: /m/d;  fin: the height the execution layer was last told is final (SetFinal). *)
 
 
 Definition set_blk (s : shared) (v : N -> option block) : shared :=
-  {| blk := v; ht := ht s; sth := sth s; wmv := wmv s; wmp := wmp s; da := da s; mk := mk s; di := di s; pdi := pdi s; fin := fin s |}.
+  {| blk := v; ht := ht s; sth := sth s; wmv := wmv s; wmp := wmp s; mu := mu s; da := da s; mk := mk s; di := di s; pdi := pdi s; fin := fin s |}.
 Definition set_ht (s : shared) (v : N) : shared :=
-  {| blk := blk s; ht := v; sth := sth s; wmv := wmv s; wmp := wmp s; da := da s; mk := mk s; di := di s; pdi := pdi s; fin := fin s |}.
+  {| blk := blk s; ht := v; sth := sth s; wmv := wmv s; wmp := wmp s; mu := mu s; da := da s; mk := mk s; di := di s; pdi := pdi s; fin := fin s |}.
 Definition set_sth (s : shared) (v : N) : shared :=
-  {| blk := blk s; ht := ht s; sth := v; wmv := wmv s; wmp := wmp s; da := da s; mk := mk s; di := di s; pdi := pdi s; fin := fin s |}.
+  {| blk := blk s; ht := ht s; sth := v; wmv := wmv s; wmp := wmp s; mu := mu s; da := da s; mk := mk s; di := di s; pdi := pdi s; fin := fin s |}.
 Definition set_wmv (s : shared) (v : kind -> N) : shared :=
-  {| blk := blk s; ht := ht s; sth := sth s; wmv := v; wmp := wmp s; da := da s; mk := mk s; di := di s; pdi := pdi s; fin := fin s |}.
+  {| blk := blk s; ht := ht s; sth := sth s; wmv := v; wmp := wmp s; mu := mu s; da := da s; mk := mk s; di := di s; pdi := pdi s; fin := fin s |}.
 Definition set_wmp (s : shared) (v : kind -> N) : shared :=
-  {| blk := blk s; ht := ht s; sth := sth s; wmv := wmv s; wmp := v; da := da s; mk := mk s; di := di s; pdi := pdi s; fin := fin s |}.
+  {| blk := blk s; ht := ht s; sth := sth s; wmv := wmv s; wmp := v; mu := mu s; da := da s; mk := mk s; di := di s; pdi := pdi s; fin := fin s |}.
+Definition set_mu (s : shared) (v : kind -> N) : shared :=
+  {| blk := blk s; ht := ht s; sth := sth s; wmv := wmv s; wmp := wmp s; mu := v; da := da s; mk := mk s; di := di s; pdi := pdi s; fin := fin s |}.
 Definition set_da (s : shared) (v : kind -> list (N * N)) : shared :=
-  {| blk := blk s; ht := ht s; sth := sth s; wmv := wmv s; wmp := wmp s; da := v; mk := mk s; di := di s; pdi := pdi s; fin := fin s |}.
+  {| blk := blk s; ht := ht s; sth := sth s; wmv := wmv s; wmp := wmp s; mu := mu s; da := v; mk := mk s; di := di s; pdi := pdi s; fin := fin s |}.
 Definition set_mk (s : shared) (v : kind -> list (N * N)) : shared :=
-  {| blk := blk s; ht := ht s; sth := sth s; wmv := wmv s; wmp := wmp s; da := da s; mk := v; di := di s; pdi := pdi s; fin := fin s |}.
+  {| blk := blk s; ht := ht s; sth := sth s; wmv := wmv s; wmp := wmp s; mu := mu s; da := da s; mk := v; di := di s; pdi := pdi s; fin := fin s |}.
 Definition set_di (s : shared) (v : N) : shared :=
-  {| blk := blk s; ht := ht s; sth := sth s; wmv := wmv s; wmp := wmp s; da := da s; mk := mk s; di := v; pdi := pdi s; fin := fin s |}.
+  {| blk := blk s; ht := ht s; sth := sth s; wmv := wmv s; wmp := wmp s; mu := mu s; da := da s; mk := mk s; di := v; pdi := pdi s; fin := fin s |}.
 Definition set_pdi (s : shared) (v : N) : shared :=
-  {| blk := blk s; ht := ht s; sth := sth s; wmv := wmv s; wmp := wmp s; da := da s; mk := mk s; di := di s; pdi := v; fin := fin s |}.
+  {| blk := blk s; ht := ht s; sth := sth s; wmv := wmv s; wmp := wmp s; mu := mu s; da := da s; mk := mk s; di := di s; pdi := v; fin := fin s |}.
 Definition set_fin (s : shared) (v : N) : shared :=
-  {| blk := blk s; ht := ht s; sth := sth s; wmv := wmv s; wmp := wmp s; da := da s; mk := mk s; di := di s; pdi := pdi s; fin := v |}.
+  {| blk := blk s; ht := ht s; sth := sth s; wmv := wmv s; wmp := wmp s; mu := mu s; da := da s; mk := mk s; di := di s; pdi := pdi s; fin := v |}.
 
 Definition upd (f : N -> option block) (h : N) (v : option block) : N -> option block :=
   fun x => if N.eqb x h then v else f x.
@@ -78,8 +93,20 @@ Definition pair_eqb (a b : N * N) : bool := N.eqb (fst a) (fst b) && N.eqb (snd 
 Definition mem (x : N * N) (l : list (N * N)) : bool := existsb (pair_eqb x) l.
 
 (* ---- program counters (local state of each activity) --------------------------------------------------- *)
-(* producer: manager.go publishBlockInternal *)
+(* producer: manager.go publishBlockInternal.  PL*: the pending-limit test at its head
+   (`MaxPendingHeadersAndData != 0 && (numPendingHeaders() >= limit || (numPendingData() >= limit &&
+   numWaitingData(ctx) >= limit))`) and pending_data.go numWaitingData / pending_base.go getPending,
+   setLastSubmittedHeight: the SECOND writer of the data watermark *)
 Inductive ppc :=
+| PL0                                  (* before the limit test (read-only comparisons; their outcome is the environment's) *)
+| PL1                                  (* numWaitingData called; next: read watermark and /t (getPending: lastHeight.Load, store.Height) *)
+| PL2 (w t : N)                        (* next: read blocks w+1..t (fetchData) *)
+| PL3 (w t : N) (snap : N -> option block) (i : N)
+                                       (* loop of numWaitingData: waiting = 0 and data i has no transactions; next: setMu.Lock *)
+| PL4 (w t : N) (snap : N -> option block) (i : N)   (* mutex held; next: lastHeight.Load + CompareAndSwap *)
+| PL5 (w t : N) (snap : N -> option block) (i : N)   (* swapped; next: put /m/last-submitted-data-height *)
+| PL6 (w t : N) (snap : N -> option block) (i : N)   (* next: setMu.Unlock (deferred) *)
+| PL7                                  (* numWaitingData returned; next: the comparison with the limit (refuse / go on) *)
 | P0                                   (* before `height, err := m.store.Height(ctx)` *)
 | P1 (h : N)                           (* height read; next: read last block (GetSignature / GetBlockData(height)) *)
 | P2 (h prev : N)                      (* next: read pending block GetBlockData(height+1) *)
@@ -98,8 +125,10 @@ Inductive spc :=
 | S1 (w t : N)                                              (* next: read blocks w+1..t *)
 | S2 (w t : N) (snap : N -> option block)                   (* next: (da.submit) *)
 | S3 (w t : N) (snap : N -> option block) (n : N)           (* accepted up to height n; next: set marks *)
-| S4 (w t : N) (snap : N -> option block) (n : N)           (* next: cas watermark *)
-| S5 (w t : N) (snap : N -> option block) (n : N).          (* next: put /m/last-submitted-*-height *)
+| SL (w t : N) (snap : N -> option block) (n : N)           (* setLastSubmittedHeight(n); next: setMu.Lock *)
+| S4 (w t : N) (snap : N -> option block) (n : N)           (* mutex held; next: lastHeight.Load + CompareAndSwap *)
+| S5 (w t : N) (snap : N -> option block) (n : N)           (* swapped; next: put /m/last-submitted-*-height *)
+| S6 (w t : N) (snap : N -> option block) (n : N).          (* next: setMu.Unlock (deferred) *)
 
 (* includer: da_includer.go *)
 Inductive ipc :=
@@ -121,21 +150,40 @@ Record env := { e_ok : bool; e_txs : bool; e_n : N }.
 Inductive act := AProd | ASub (k : kind) | AIncl.
 
 (* ---- one atomic action of each activity ---------------------------------------------------------------- *)
+(* numWaitingData's loop arriving at height i with waiting = 0: data without transactions is stepped over
+   (setLastSubmittedDataHeight(i)); the first data with transactions makes waiting > 0 and nothing is written any
+   more; a height that cannot be fetched ends the list (getPending returns what it has) *)
+Definition l_next (w t : N) (snap : N -> option block) (i : N) : ppc :=
+  if i <=? t then
+    match snap i with
+    | Some b => if b_txs b then PL7 else PL3 w t snap i
+    | None => PL7
+    end
+  else PL7.
+
 Definition step_p (s : shared) (p : ppc) (e : env) : shared * ppc :=
   match p with
+  | PL0 => if e_ok e then (s, PL1) else (s, P0)      (* limit configured and both raw counts at the limit / not *)
+  | PL1 => if wmv s Dat <? ht s then (s, PL2 (wmv s Dat) (ht s)) else (s, PL7)
+  | PL2 w t => (s, l_next w t (blk s) (w + 1))
+  | PL3 w t snap i => if mu s Dat =? 0 then (set_mu s (updk (mu s) Dat 2), PL4 w t snap i) else (s, PL3 w t snap i)
+  | PL4 w t snap i => if wmv s Dat <? i then (set_wmv s (updk (wmv s) Dat i), PL5 w t snap i) else (s, PL6 w t snap i)
+  | PL5 w t snap i => (set_wmp s (updk (wmp s) Dat i), PL6 w t snap i)
+  | PL6 w t snap i => (set_mu s (updk (mu s) Dat 0), l_next w t snap (i + 1))
+  | PL7 => if e_ok e then (s, P0) else (s, PL0)      (* waiting < limit: go on / refuse to create a block *)
   | P0 => (s, P1 (ht s))
   | P1 h => (s, P2 h (id_at (blk s) h))
   | P2 h prev => match blk s (h + 1) with Some b => (s, P5 h b) | None => (s, P3 h prev) end
-  | P3 h prev => if e_ok e then (s, P3b h prev (e_txs e)) else (s, P0)
+  | P3 h prev => if e_ok e then (s, P3b h prev (e_txs e)) else (s, PL0)
   | P3b h prev txs => (s, P4 h prev txs)
   | P4 h prev txs =>
       let b := {| b_id := e_n e; b_prev := prev; b_txs := txs; b_final := false |} in
       (set_blk s (upd (blk s) (h + 1) (Some b)), P5 h b)
-  | P5 h b => if e_ok e then (s, P6 h b) else (s, P0)
+  | P5 h b => if e_ok e then (s, P6 h b) else (s, PL0)
   | P6 h b => (set_blk s (upd (blk s) (h + 1) (Some (finalize b))), P7 h)
   | P7 h => (set_sth s (h + 1), P8 h)
   | P8 h => (set_ht s (h + 1), P9)
-  | P9 => (s, P0)
+  | P9 => (s, PL0)
   end.
 
 Definition s_next (t : N) (snap : N -> option block) (n : N) : spc := if n <? t then S2 n t snap else S0.
@@ -150,9 +198,11 @@ Definition step_s (k : kind) (s : shared) (p : spc) (e : env) : shared * spc :=
         then (set_da s (updk (da s) k (posted k snap w (e_n e) ++ da s k)), S3 w t snap (e_n e))
         else (s, S2 w t snap)                 (* nothing accepted: retry after the back-off *)
       else (s, S0)                            (* attempts exhausted / context done *)
-  | S3 w t snap n => (set_mk s (updk (mk s) k (posted k snap w n ++ mk s k)), S4 w t snap n)
-  | S4 w t snap n => if wmv s k <? n then (set_wmv s (updk (wmv s) k n), S5 w t snap n) else (s, s_next t snap n)
-  | S5 w t snap n => (set_wmp s (updk (wmp s) k n), s_next t snap n)
+  | S3 w t snap n => (set_mk s (updk (mk s) k (posted k snap w n ++ mk s k)), SL w t snap n)
+  | SL w t snap n => if mu s k =? 0 then (set_mu s (updk (mu s) k 1), S4 w t snap n) else (s, SL w t snap n)
+  | S4 w t snap n => if wmv s k <? n then (set_wmv s (updk (wmv s) k n), S5 w t snap n) else (s, S6 w t snap n)
+  | S5 w t snap n => (set_wmp s (updk (wmp s) k n), S6 w t snap n)
+  | S6 w t snap n => (set_mu s (updk (mu s) k 0), s_next t snap n)
   end.
 
 Definition step_i (s : shared) (p : ipc) (e : env) : shared * ipc :=
@@ -181,9 +231,9 @@ Definition run (st : state) (sched : list (act * env)) : state := fold_left step
 
 (* a fresh aggregator (initial height 1): nothing stored, every counter 0 *)
 Definition init_shared : shared :=
-  {| blk := fun _ => None; ht := 0; sth := 0; wmv := fun _ => 0; wmp := fun _ => 0;
+  {| blk := fun _ => None; ht := 0; sth := 0; wmv := fun _ => 0; wmp := fun _ => 0; mu := fun _ => 0;
      da := fun _ => []; mk := fun _ => []; di := 0; pdi := 0; fin := 0 |}.
-Definition init : state := {| sh := init_shared; pp := P0; ps := fun _ => S0; pi := I0 |}.
+Definition init : state := {| sh := init_shared; pp := PL0; ps := fun _ => S0; pi := I0 |}.
 
 (* ---- the joint invariant, as a decidable check on a bounded prefix (used by Examples and by Check) ------- *)
 Definition on_da (s : shared) (k : kind) (h : N) : bool :=
@@ -200,6 +250,8 @@ Record G (s : shared) : Prop := {
   (* C06: watermarks never exceed the height, the durable one never exceeds the volatile one, and everything
      at or below a watermark that its submitter sends is on the DA layer *)
   g_wm_le : forall k, wmv s k <= ht s /\ wmp s k <= wmv s k;
+  (* ... and while nobody is inside setLastSubmittedHeight (mutex free) the durable one IS the volatile one *)
+  g_wm_eq : forall k, mu s k = 0 -> wmp s k = wmv s k;
   g_wm_da : forall k h b, 1 <= h <= wmv s k -> blk s h = Some b -> wants k b = true -> In (h, b_id b) (da s k);
   (* C07: a DA-included mark is backed by the DA layer; the DA-included height never exceeds the height and
      every block at or below it is entirely on the DA layer; durable value and finalized height bracket it *)
@@ -211,9 +263,22 @@ Record G (s : shared) : Prop := {
 }.
 
 (* what each activity knows at each of its program points *)
+Definition snap_ok (s : shared) (snap : N -> option block) (t : N) : Prop := forall h, h <= t -> snap h = blk s h.
+
+(* numWaitingData between its reads and its return: it read the watermark as w (the watermark can only have grown
+   since: the submitter is the other writer), the height as t, the blocks w+1..t as snap, and every data item in
+   (w, i] has no transactions *)
+Definition lim_ok (s : shared) (w t : N) (snap : N -> option block) (i : N) : Prop :=
+  w <= wmv s Dat /\ w < i /\ i <= t /\ t <= ht s /\ snap_ok s snap t /\
+  (forall h b, w < h <= i -> snap h = Some b -> b_txs b = false).
+
 Definition Pcl (s : shared) (p : ppc) : Prop :=
   match p with
-  | P0 | P9 => sth s = ht s
+  | PL0 | PL1 | PL7 | P0 | P9 => sth s = ht s
+  | PL2 w t => sth s = ht s /\ w <= wmv s Dat /\ w < t /\ t <= ht s
+  | PL3 w t snap i => sth s = ht s /\ lim_ok s w t snap i
+  | PL4 w t snap i | PL6 w t snap i => sth s = ht s /\ mu s Dat = 2 /\ wmp s Dat = wmv s Dat /\ lim_ok s w t snap i
+  | PL5 w t snap i => sth s = ht s /\ mu s Dat = 2 /\ i = wmv s Dat /\ lim_ok s w t snap i
   | P1 h => sth s = ht s /\ h = ht s
   | P2 h prev => sth s = ht s /\ h = ht s /\ prev = id_at (blk s) h
   | P3 h prev | P3b h prev _ | P4 h prev _ => sth s = ht s /\ h = ht s /\ prev = id_at (blk s) h /\ blk s (h + 1) = None
@@ -222,16 +287,19 @@ Definition Pcl (s : shared) (p : ppc) : Prop :=
   | P8 h => sth s = ht s + 1 /\ h = ht s /\ exists b, blk s (h + 1) = Some b /\ b_final b = true
   end.
 
-Definition snap_ok (s : shared) (snap : N -> option block) (t : N) : Prop := forall h, h <= t -> snap h = blk s h.
-
+(* the submitter read the watermark as w; for the data watermark block production may have raised it since *)
 Definition Scl (k : kind) (s : shared) (p : spc) : Prop :=
   match p with
   | S0 => True
-  | S1 w t => w = wmv s k /\ w < t /\ t <= ht s
-  | S2 w t snap => w = wmv s k /\ w < t /\ t <= ht s /\ snap_ok s snap t
-  | S3 w t snap n | S4 w t snap n =>
-      w = wmv s k /\ w < n /\ n <= t /\ t <= ht s /\ snap_ok s snap t /\ (forall x, In x (posted k snap w n) -> In x (da s k))
-  | S5 w t snap n => n = wmv s k /\ n <= t /\ t <= ht s /\ snap_ok s snap t
+  | S1 w t => w <= wmv s k /\ w < t /\ t <= ht s
+  | S2 w t snap => w <= wmv s k /\ w < t /\ t <= ht s /\ snap_ok s snap t
+  | S3 w t snap n | SL w t snap n =>
+      w <= wmv s k /\ w < n /\ n <= t /\ t <= ht s /\ snap_ok s snap t /\ (forall x, In x (posted k snap w n) -> In x (da s k))
+  | S4 w t snap n =>
+      mu s k = 1 /\ wmp s k = wmv s k /\
+      w <= wmv s k /\ w < n /\ n <= t /\ t <= ht s /\ snap_ok s snap t /\ (forall x, In x (posted k snap w n) -> In x (da s k))
+  | S5 w t snap n => mu s k = 1 /\ n = wmv s k /\ n <= t /\ t <= ht s /\ snap_ok s snap t
+  | S6 w t snap n => mu s k = 1 /\ wmp s k = wmv s k /\ n <= wmv s k /\ n <= t /\ t <= ht s /\ snap_ok s snap t
   end.
 
 Definition marked (s : shared) (c : N) (b : block) : Prop :=
@@ -253,16 +321,20 @@ Definition J (st : state) : Prop :=
 
 (* what never goes back, and what is never rewritten, across one action *)
 Definition mono (a b : shared) : Prop :=
-  ht a <= ht b /\ (forall k, wmv a k <= wmv b k) /\ di a <= di b /\
+  ht a <= ht b /\ (forall k, wmv a k <= wmv b k) /\ (forall k, wmp a k <= wmp b k) /\ di a <= di b /\
   (forall h, 1 <= h <= ht a -> blk b h = blk a h) /\
   (forall k x, In x (da a k) -> In x (da b k)).
 
 (* ---- the observable part of G as a boolean check (evaluated on model states in the Examples and, by
    Check/ConcCheck.v, on the state of the real halted aggregator) ------------------------------------------ *)
+(* durable watermark against the volatile one: equal while the mutex is free, never above it otherwise *)
+Definition wm_dur (s : shared) (k : kind) : bool :=
+  if mu s k =? 0 then wmp s k =? wmv s k else wmp s k <=? wmv s k.
+
 Definition gcheck (s : shared) : list N :=
   (if sth s =? ht s then [] else [1]) ++
-  (if (wmv s Hdr <=? ht s) && (wmp s Hdr <=? wmv s Hdr) then [] else [2]) ++
-  (if (wmv s Dat <=? ht s) && (wmp s Dat <=? wmv s Dat) then [] else [3]) ++
+  (if (wmv s Hdr <=? ht s) && wm_dur s Hdr then [] else [2]) ++
+  (if (wmv s Dat <=? ht s) && wm_dur s Dat then [] else [3]) ++
   (if di s <=? ht s then [] else [4]) ++
   (if (di s <=? pdi s) && (pdi s <=? fin s) && (fin s <=? di s + 1) then [] else [5]) ++
   (if forallb (on_da s Hdr) (rangeN 0 (wmv s Hdr)) then [] else [6]) ++
@@ -271,3 +343,34 @@ Definition gcheck (s : shared) : list N :=
   (if forallb (fun h => match blk s h with
                         | Some b => b_final b && (b_prev b =? id_at (blk s) (h - 1))
                         | None => false end) (rangeN 0 (ht s)) then [] else [9]).
+
+(* ---- the write discipline BEFORE the repair d1559c9: setLastSubmittedHeight without setMu -----------------
+   Same programs, same actions, except that Lock and Unlock do nothing (PL3 / PL6 of block production, SL / S6 of
+   the submitters): compare-and-swap in memory, THEN the store write, unordered between the two writers of the
+   data watermark.  (Load and CompareAndSwap stay one action: an interleaving of this model is an interleaving of
+   the old code in which nothing intervenes between the two.)  Kept only to show what the mutex is needed for:
+   Props/C13.v C13_two_writers_unlocked_refuted. *)
+Definition step_p_old (s : shared) (p : ppc) (e : env) : shared * ppc :=
+  match p with
+  | PL3 w t snap i => (s, PL4 w t snap i)
+  | PL6 w t snap i => (s, l_next w t snap (i + 1))
+  | _ => step_p s p e
+  end.
+Definition step_s_old (k : kind) (s : shared) (p : spc) (e : env) : shared * spc :=
+  match p with
+  | SL w t snap n => (s, S4 w t snap n)
+  | S6 w t snap n => (s, s_next t snap n)
+  | _ => step_s k s p e
+  end.
+Definition step_old (st : state) (ae : act * env) : state :=
+  let (a, e) := ae in
+  match a with
+  | AProd => let (s', p') := step_p_old (sh st) (pp st) e in {| sh := s'; pp := p'; ps := ps st; pi := pi st |}
+  | ASub k => let (s', p') := step_s_old k (sh st) (ps st k) e in {| sh := s'; pp := pp st; ps := updk (ps st) k p'; pi := pi st |}
+  | AIncl => step st ae
+  end.
+Definition run_old (st : state) (sched : list (act * env)) : state := fold_left step_old sched st.
+
+(* between Lock and Unlock of the data watermark's mutex *)
+Definition holds_p (p : ppc) : bool := match p with PL4 _ _ _ _ | PL5 _ _ _ _ | PL6 _ _ _ _ => true | _ => false end.
+Definition holds_s (p : spc) : bool := match p with S4 _ _ _ _ | S5 _ _ _ _ | S6 _ _ _ _ => true | _ => false end.
